@@ -11,7 +11,7 @@ TRUSTED_BASE = [
     "harness: output of `update --dry` parsed by a strict unified-diff applier and compared with a real run on an identical copy; fake git log inspected",
 ]
 ASSUMPTIONS = ["difflib.unified_diff and the textual diff format are not modelled (the printed diff is applied by the harness and compared byte for byte)"]
-MUTATING = {"add_path", "commit", "tag", "push", "fetch"}
+MUTATING = {"add_path", "commit", "tag", "push"}     # fetch only reads from the remote (C10 treats it the same way)
 
 
 class DiffError(Exception):
@@ -96,10 +96,38 @@ def run(rep, tier, seed, model_ok=True, effort=1):
                   commit=use_vcs, tag=use_vcs, push=use_vcs, vcs="fakegit" if use_vcs else None,
                   vcs_cfg=dict(tags=[], status="", remote="origin") if use_vcs else None, hooks={"pre": "ok"} if use_vcs else None)
         nd = spec["date"] + dt.timedelta(days=r.choice([1, 400]))
-        args = ["update", "--no-fetch", "--date", nd.isoformat()] + spec["flags"]
+        use_fetch = use_vcs and r.random() < 0.5
+        args = ["update", "--fetch" if use_fetch else "--no-fetch", "--date", nd.isoformat()] + spec["flags"]
+        if use_fetch:
+            # the remote carries a newer version tag that only becomes visible after `git fetch`
+            try:
+                newer = impl.v2version.incr(spec["old"], spec["vp"], major="MAJOR" in spec["vp"], minor="MINOR" in spec["vp"], maybe_date=spec["date"] + dt.timedelta(days=800)) if not legacy else None
+            except Exception:
+                newer = None
+            if newer:
+                kw["vcs_cfg"] = dict(kw["vcs_cfg"], tags_after_fetch=[newer])
+                nd = spec["date"] + dt.timedelta(days=900)
+                args[3] = nd.isoformat()
+        # a file whose text is stale (older than the configured current version) must appear in the dry diff exactly as the real run rewrites it
+        stale_file = None
+        if not legacy and r.random() < 0.4:
+            stale_file = r.choice(spec["files"]).path
         with rwgen.to_temp_project(project, spec, **kw) as prj_dry, rwgen.to_temp_project(project, spec, **kw) as prj_real:
             try:
                 rwgen.write_contents(prj_dry, spec); rwgen.write_contents(prj_real, spec)
+                if stale_file:
+                    fs = next(f for f in spec["files"] if f.path == stale_file)
+                    v_old = impl.v2version.parse_version_info(spec["old"], spec["vp"])
+                    older = impl.v2version.format_version(v_old._replace(major=max(0, v_old.major - 1), minor=v_old.minor + 3, year_y=(v_old.year_y or 2001) - 1,
+                                                                       year_g=(v_old.year_g or 2001) - 1), spec["vp"])
+                    if older and older != spec["old"]:
+                        try:
+                            impl.v2version.parse_version_info(older, spec["vp"])
+                            for prj_ in (prj_dry, prj_real):
+                                with open(prj_.path(stale_file), "wb") as fh:
+                                    fh.write(fs.render(prj_.render, older, older).encode("utf-8"))
+                        except Exception:
+                            pass
             except Exception:
                 continue
             if prj_dry.cfg_error(impl):
